@@ -171,6 +171,76 @@ def explore_chdir(item):
     return out
 
 
+def universe_chain():
+    # the C06 universe plus F -> C -> A: a dependency chain of depth 2 (an intermediate type with dependencies of its own)
+    return universe() + [TypeDef('F', 'F.ts', [2], '{ c: C, }')]
+
+
+def explore_chain(item):
+    """histories in which an intermediate type (C, which depends on A) was written by an earlier call before a root above it (F)
+    is exported with its dependencies, and the other way round: the directory is the canonical one for the set exported"""
+    cfg, hist = item
+    ex = Explorer(time_budget=G.get('time_budget'))
+    tdefs = universe_chain()
+    out = {'violations': [], 'samples': [], 'obligations': 0, 'discharged': 0, 'models': set(), 'inconclusive': []}
+    bind = CWD + '/bindings'
+
+    def harness(ctx):
+        m = W.machine(ctx, cfg, CWD, None)
+        W.install(m, tdefs)
+        results, exported = [], {}
+        for e, t in hist:
+            r = W.call_entry(m, ENTRIES[e], t, 'bindings')
+            results.append(r)
+            if r is None:
+                for j in ([t] if ENTRIES[e] == 'export' else W.closure(tdefs, t)):
+                    exported[j] = bind
+        out['models'].update(m.calls)
+        return results, exported, W.files_of(m.env['fs'])
+    try:
+        for pc, (results, exported, files) in ex.run(harness):
+            out['obligations'] += 1
+            why = None
+            for (e, t), r in zip(hist, results):
+                if r is not None:
+                    why = f'{ENTRIES[e]}({tdefs[t].name}) -> {r}'
+            if why is None:
+                want = W.expected_fs(CWD, tdefs, exported, cfg == 'esm')
+                if dict(files) != want:
+                    diff = sorted(set(files) ^ set(want)) or [f for f in want if files.get(f) != want[f]]
+                    why = f'final directory differs from the canonical contents for the exported set {sorted(tdefs[i].name for i in exported)}: {diff[:4]}'
+            if why is not None:
+                out['violations'].append({'cfg': cfg, 'env': None, 'to': 'bindings', 'init': 'empty', 'chain': True, 'why': why,
+                                          'steps': [(ENTRIES[e], t, 'bindings') for e, t in hist], 'engine_files': files})
+            else:
+                out['discharged'] += 1
+    except Unsupported as e:
+        out['inconclusive'].append(f'chain {item}: {e}')
+    out.update(paths=ex.paths, nontrivial=ex.nontrivial, queries=ex.queries, solver_s=ex.solver_s)
+    out['models'] = sorted(out['models'])
+    return out
+
+
+CHAIN_ITEMS = [('plain', h) for h in ([(0, 2), (1, 4)], [(0, 2), (2, 4)], [(1, 4), (0, 2)], [(0, 4), (1, 4)], [(0, 2), (0, 4), (1, 4)], [(1, 2), (1, 4)])]
+
+
+def native_check_chain(v):
+    tdefs = universe_chain()
+    steps = [(e, t, d if e == 'export_all_to' else None) for e, t, d in v['steps']]
+    results, files = W.native_history(v['cfg'], None, tdefs, steps, None, [])
+    exported, why = {}, None
+    for (entry, t, d), r in zip(steps, results):
+        if r[0] != 'ok':
+            why = f'{entry}({tdefs[t].name}) -> {r} natively'
+        else:
+            for j in ([t] if entry == 'export' else W.closure(tdefs, t)):
+                exported[j] = CWD + '/bindings'
+    want = {f[len(CWD) + 1:]: c for f, c in W.expected_fs(CWD, tdefs, exported, v['cfg'] == 'esm').items()}
+    if why is None and files != want:
+        why = 'natively the directory differs from the canonical contents: ' + str(sorted(set(files) ^ set(want))[:4] or [f for f in want if files.get(f) != want[f]][:3])
+    return why is not None, {'why': why, 'results': results, 'files': files}
+
+
 def explore_symlink(item):
     """the export directory is reached through a directory symlink (`lnk -> real`): the files of every exported type end up in the
     real directory, whatever the order of the calls and whether the target file existed before"""
@@ -265,6 +335,8 @@ def native_check(v):
         return native_check_chdir(v)
     if v.get('symlink'):
         return native_check_symlink(v)
+    if v.get('chain'):
+        return native_check_chain(v)
     """replay the history natively; returns (is_violation, details)"""
     tdefs = universe()
     import tempfile
@@ -347,7 +419,8 @@ def main():
     rep.bounds['change_of_working_directory'] = f'{len(chdir_items)} two-call histories with a chdir in between, default directory and a relative export_all_to argument'
     symlink_items = [('plain', a, b) for a in ((0, 0), (0, 1), (1, 2), (2, 2)) for b in ((0, 1), (0, 0), (2, 1), (1, 2))]
     rep.bounds['export_directory_behind_a_symlink'] = f'{len(symlink_items)} two-call histories with TS_RS_EXPORT_DIR / the export_all_to argument naming a directory symlink'
-    results = par.pmap(explore, items) + par.pmap(explore_chdir, chdir_items) + par.pmap(explore_symlink, symlink_items)
+    rep.bounds['dependency_chain_histories'] = f'{len(CHAIN_ITEMS)} histories over F -> C -> A in which the intermediate type is written before / after the root'
+    results = par.pmap(explore, items) + par.pmap(explore_chdir, chdir_items) + par.pmap(explore_symlink, symlink_items) + par.pmap(explore_chain, CHAIN_ITEMS)
     cand = []
     for r in results:
         cand += r.pop('violations', [])
